@@ -6,6 +6,7 @@
 //! trusted: env: ChannelInfo {one_to_two, two_to_one, capacity_sats, announcement_received_time}, ChannelUpdateInfo {last_update}, UnsignedChannelUpdate {chain_hash, timestamp, channel_flags, htlc_maximum_msat}, NodeAnnouncementInfo {last_update} are field skeletons; ChainHash is an opaque identity; LightningError loses its text and action (R8)
 //! trusted: R15 (deep slices, k): node_failed_permanent: the expression choosing the other end of each of the failed node's channels and the predicate of the `retain` on that neighbour's channel list, verbatim as functions (ChannelEnds is a two-field skeleton of ChannelInfo); removing the node, its channels and emptied neighbours from the maps and recording the removals are dropped and not claimed
 //! trusted: assume_specification for core::cmp::max / core::cmp::min (std definitions): present in every unit so that a change that introduces them is verified instead of being rejected by the tool
+//! trusted: failed_for_good: NetworkGraph::channel_failed_permanent_with_time is extracted whole; R5: `self.channels.write().unwrap()` / `self.nodes.write().unwrap()` / `self.removed_channels.lock().unwrap()` are the fields themselves (one caller, no other thread), remove_channel_in_nodes is a recorder of (scid, channel)
 use vstd::prelude::*;
 verus! {
 use core::cmp;
@@ -415,6 +416,59 @@ impl Graph {
     if utxo_value.is_some() {
 //@with
     if utxo_value.is_none() {
+//@end
+}
+}
+
+// ---- a channel reported as failed for good (a payment failure said so) leaves the graph, is remembered as removed, and is unlinked from its two nodes ----
+pub mod failed_for_good {
+use vstd::prelude::*;
+#[derive(Clone, Copy)] pub struct ChanInfo { pub id: u64 }
+pub struct ChannelsMap { pub m: Ghost<Map<u64, ChanInfo>> }
+impl ChannelsMap { #[verifier::external_body] pub fn remove(&mut self, k: &u64) -> (r: Option<ChanInfo>)
+    ensures r == (if old(self).m@.contains_key(*k) { Some(old(self).m@[*k]) } else { None::<ChanInfo> }), final(self).m@ == old(self).m@.remove(*k) { unimplemented!() } }
+pub struct RemovedChannels { pub m: Ghost<Map<u64, Option<u64>>> }
+impl RemovedChannels { #[verifier::external_body] pub fn insert(&mut self, k: u64, v: Option<u64>) -> (r: Option<Option<u64>>) ensures final(self).m@ == old(self).m@.insert(k, v) { unimplemented!() } }
+pub struct NodesMap { pub unlinked: Ghost<Seq<(u64, u64)>> }
+// R5: the three lock-protected maps of the graph are fields of a skeleton handed out by value-preserving accessors (one caller: no other thread)
+pub struct Graph { pub channels: ChannelsMap, pub nodes: NodesMap, pub removed_channels: RemovedChannels }
+#[verifier::external_body] pub fn remove_channel_in_nodes(nodes: &mut NodesMap, chan: &ChanInfo, short_channel_id: u64)
+    ensures final(nodes).unlinked@ == old(nodes).unlinked@.push((short_channel_id, chan.id)) { unimplemented!() }
+impl Graph {
+//@extract lightning/src/routing/gossip.rs :: impl NetworkGraph :: fn channel_failed_permanent_with_time
+//@rw R5
+    fn channel_failed_permanent_with_time( &self,
+//@with
+    fn channel_failed_permanent_with_time( &mut self,
+//@rw R5
+    let mut channels = self.channels.write().unwrap();
+//@with
+    let channels = &mut self.channels;
+//@rw R5 ?
+    let mut nodes = self.nodes.write().unwrap();
+//@with
+    let nodes = &mut self.nodes;
+//@rw R5 ?
+    self.removed_channels.lock().unwrap()
+//@with
+    self.removed_channels
+//@rw R5 ?
+    self.remove_channel_in_nodes(&mut nodes,
+//@with
+    remove_channel_in_nodes(nodes,
+//@ensures P C17 a-channel-reported-as-failed-for-good-is-removed-remembered-as-removed-and-unlinked-from-its-nodes-and-an-unknown-one-changes-nothing
+    old(self).channels.m@.contains_key(short_channel_id) ==> final(self).channels.m@ == old(self).channels.m@.remove(short_channel_id)
+        && final(self).removed_channels.m@ == old(self).removed_channels.m@.insert(short_channel_id, current_time_unix)
+        && final(self).nodes.unlinked@ == old(self).nodes.unlinked@.push((short_channel_id, old(self).channels.m@[short_channel_id].id)),
+    !old(self).channels.m@.contains_key(short_channel_id) ==> final(self).channels.m@ == old(self).channels.m@ && final(self).removed_channels.m@ == old(self).removed_channels.m@ && final(self).nodes.unlinked@ == old(self).nodes.unlinked@,
+//@mutant failed_channel_not_remembered_as_removed
+    self.removed_channels.lock().unwrap().insert(short_channel_id, current_time_unix);
+//@with
+    
+//@mutant failed_channel_left_in_its_nodes_channel_lists
+    self.remove_channel_in_nodes(&mut nodes, &chan, short_channel_id);
+//@with
+    
 //@end
 }
 }
